@@ -146,6 +146,7 @@ def digestStore (s : Store) (U : Nat) (fs : List Filt) : List (String × String)
      ("emeta." ++ t ++ ".0", rOpt rKeyMetas (edgesMeta s f false)), ("emeta." ++ t ++ ".1", rOpt rKeyMetas (edgesMeta s f true)),
      ("wdict." ++ t ++ ".0", rOpt rKeyInts (weightsDict s f false)), ("wdict." ++ t ++ ".1", rOpt rKeyInts (weightsDict s f true)),
      ("wlist." ++ t ++ ".0", rOpt rInts ((weightsDict s f false).map (·.map (·.2)))),
+     ("wlist." ++ t ++ ".1", rOpt rInts ((weightsDict s f true).map (·.map (·.2)))),
      ("degseq." ++ t, rOpt rPairs (degreeSeq s f)), ("degdist." ++ t, rOpt rPairs (degreeDist s f)),
      ("indegseq." ++ t, rOpt rPairs (inDegreeSeq s f)), ("outdegseq." ++ t, rOpt rPairs (outDegreeSeq s f)),
      ("isolated." ++ t, rOpt rNodes (isolatedNodes s f))])
@@ -174,6 +175,7 @@ def digestSpec (s : Spec) (U : Nat) (fs : List Filt) : List (String × String) :
      ("emeta." ++ t ++ ".0", rOpt rKeyMetas (s.edgesMetaF f false)), ("emeta." ++ t ++ ".1", rOpt rKeyMetas (s.edgesMetaF f true)),
      ("wdict." ++ t ++ ".0", rOpt rKeyInts (s.weightsDictF f false)), ("wdict." ++ t ++ ".1", rOpt rKeyInts (s.weightsDictF f true)),
      ("wlist." ++ t ++ ".0", rOpt rInts ((s.weightsDictF f false).map (·.map (·.2)))),
+     ("wlist." ++ t ++ ".1", rOpt rInts ((s.weightsDictF f true).map (·.map (·.2)))),
      ("degseq." ++ t, rOpt rPairs (s.degreeSeq f)), ("degdist." ++ t, rOpt rPairs (s.degreeDist f)),
      ("indegseq." ++ t, rOpt rPairs (s.inDegreeSeq f)), ("outdegseq." ++ t, rOpt rPairs (s.outDegreeSeq f)),
      ("isolated." ++ t, rOpt rNodes (s.isolatedNodes f))])
